@@ -103,6 +103,11 @@ TStep ==
                THEN TrKnown(tr, "C09_K1_sequential_reader_midnight")
                ELSE IF rd.res = "raised" /\ rd.reader = "read" /\ c.fmt \in MetFmts /\ c.nt = 1
                THEN TrKnown(tr, "C09_K2_sequential_met_single_step")
+               \* the sequential wind reader looks for the next time record by its
+               \* SIZE: a slab of 2 (3) cells has the size of the two- (three-)word record
+               ELSE IF rd.res = "raised" /\ rd.reader = "read" /\ c.fmt = "wind"
+                         /\ c.nx * c.ny = (IF c.hdr3 THEN 3 ELSE 2)
+               THEN TrKnown(tr, "C09_K3_sequential_wind_slab_size")
                ELSE /\ ChkT(tr, r, "reader '" \o rd.reader \o "' rejected a valid file: " \o rd.exc, rd.res = "ok")
                     /\ ChkS(tr, r, "reader '" \o rd.reader \o "' does not present the encoded content",
                             ContentDiagH(c, tr.names, rd.got, c.nt, rd.reader = "memmap" /\ c.fmt # "landuse", rd.reader = "memmap")))
